@@ -90,11 +90,14 @@ def build(case):
         s = case["cell_scale"]
         L = np.tile([3.0 * s, 4.0 * s, 5.0 * s], (nf, 1))
         A = np.tile([90.0, 90.0, 90.0], (nf, 1))
+        # the skewed cells rotate through the sign patterns of the tilt factors: acute / obtuse in every combination
+        SK = [[70.0, 80.0, 100.0], [100.0, 105.0, 110.0], [60.0, 75.0, 80.0], [80.0, 110.0, 70.0], [109.4712, 109.4712, 109.4712], [75.0, 100.0, 115.0]]
+        skew0 = SK[case["seed"] % len(SK)]
         if case["cell"] in ("tric", "vary-tric"):
-            A = np.tile([70.0, 80.0, 100.0], (nf, 1))
+            A = np.tile(skew0, (nf, 1))
         if case["cell"] in ("ortho-then-tric", "tric-then-ortho"):
             # the box style changes during the trajectory (a box sheared, or relaxed to rectangular, during the run)
-            skew = np.array([70.0, 80.0, 100.0])
+            skew = np.array(skew0)
             for f in range(nf):
                 tric_here = (f > 0) if case["cell"] == "ortho-then-tric" else (f < nf - 1 or nf == 1)
                 if tric_here:
